@@ -121,6 +121,24 @@ impl AsMathInt for u64 { open spec fn math(&self) -> int { *self as int } }
 #[verifier::external_body] pub fn to_f64<T: AsMathInt>(v: T) -> (r: f64) ensures r == int_f64(v.math()) { unimplemented!() }
 '''
 
+# ---- R2: std integer operations rscel does not use today (specs from the std documentation; assumed) ---------------------------------
+# Present in unit value_arith only, so that an arithmetic arm rewritten through one of them is decided against its postcondition
+# instead of being rejected by Verus ("not supported").
+STD_INT_SPECS = r'''
+pub assume_specification[ i64::wrapping_neg ](x: i64) -> (r: i64)
+    ensures r == (if x == i64::MIN { i64::MIN } else { (-(x as int)) as i64 });
+pub assume_specification[ i64::wrapping_abs ](x: i64) -> (r: i64)
+    ensures r == (if x == i64::MIN { i64::MIN } else if x < 0 { (-(x as int)) as i64 } else { x });
+pub assume_specification[ i64::unsigned_abs ](x: i64) -> (r: u64)
+    ensures r as int == (if x < 0 { -(x as int) } else { x as int });
+pub assume_specification[ i64::checked_abs ](x: i64) -> (r: Option<i64>)
+    ensures r == (if x == i64::MIN { None::<i64> } else if x < 0 { Some((-(x as int)) as i64) } else { Some(x) });
+pub assume_specification[ i64::saturating_add ](x: i64, y: i64) -> (r: i64)
+    ensures r as int == (if x + y > i64::MAX { i64::MAX as int } else if x + y < i64::MIN { i64::MIN as int } else { x + y });
+pub assume_specification[ i64::saturating_sub ](x: i64, y: i64) -> (r: i64)
+    ensures r as int == (if x - y > i64::MAX { i64::MAX as int } else if x - y < i64::MIN { i64::MIN as int } else { x - y });
+'''
+
 # ---- R2: std functions without a vstd spec -----------------------------------------------------------
 STD_SPECS = r'''
 // R2: assumed specifications of std functions vstd does not cover (listed as assumptions in the evidence)
